@@ -591,6 +591,16 @@ fn e1_tape(
 }
 
 pub fn run(ctx: &Ctx) -> i32 {
+    // global watchdog: a check that hangs (in the driver itself, not only in a child process)
+    // ends as inconclusive (exit 2), never as a pass or a violation
+    {
+        let (prop, limit) = (ctx.prop.clone(), if ctx.quick() { 45 * 60 } else { 10 * 3600 });
+        std::thread::spawn(move || {
+            std::thread::sleep(std::time::Duration::from_secs(limit));
+            println!("INCONCLUSIVE property={prop} the check did not finish within {limit} s (watchdog)");
+            std::process::exit(2);
+        });
+    }
     let out = match ctx.prop.as_str() {
         "C01" => {
             let mut out = msg_family(ctx, false, "fam_msg_s1",
